@@ -520,7 +520,7 @@ theorem makeRef_go_quiet (orig : Nat) (name : String) (fuel e : Nat) (st : St) (
           rw [Array.getElem?_eq_none (by omega)] at hfor; cases hfor
       simp [hlt]
     obtain ⟨f1, hf1, hf1m⟩ := horig1
-    by_cases hc : (!(isConstant name && fre.depth == 0) && !isFuncObj obj) = true
+    by_cases hc : (!(isConstant name && fre.depth == 0) && !(isFuncObj obj && fre.depth == 0)) = true
     · -- the counter moves: not quiet
       exfalso
       simp only [hc, if_true] at hq
@@ -618,7 +618,7 @@ theorem envGet_quiet (e : Nat) (name : String) (st : St) (r : Option Obj)
               else do
                 let tgt ← refValue re rn
                 let fr ← getFrame re
-                if (!(isConstant rn && fr.depth == 0) && !isFuncObj tgt) = true then do
+                if (!(isConstant rn && fr.depth == 0) && !(isFuncObj tgt && fr.depth == 0)) = true then do
                     modifyFrame e fun f => { f with getMiss := f.getMiss + 1 }
                     pure (some (Obj.ref re rn))
                   else pure (some (Obj.ref re rn))
